@@ -144,6 +144,63 @@ theorem C04_framing (old : Mem) (f : Frame) (c : Cache) (args : List Arg) (pos :
       simp only [List.length_append, hl]; omega
     simp only [hk, if_false, take_len _ _ hl, drop_len _ _ hl]
 
+/-- **a dropped statement leaves nothing behind.** Whatever the thread did before — any number of statements,
+    each either logged (size pass + encode pass) or *dropped / rejected between the two passes* (size pass only: a
+    full `BoundedDropping` / `UnboundedDropping` queue, or a record over the unbounded maximum), with any arguments,
+    starting from any cache — the next statement behaves as on a thread that never logged: (1) its size pass
+    reserves, and its encode pass writes, exactly the specified encoding `encL` (no fault, reserved = written);
+    (2) that is literally what a fresh cache of any inline capacity `N` gives; (3) if the statement uses the cache at
+    all, the size pass leaves exactly its own lengths in it — the same entries as on a fresh cache. This is what the
+    `clear()` at the *start* of `compute_encoded_size_and_cache_string_lengths` buys (obligation `codec_clear_rule`
+    pins it there and pins `detail::encode` to a `const&` cache). -/
+theorem C04_drop_leaves_nothing (old : Mem) (c : Cache) (ops : List StmtOp) (args : List Arg) (pos N : Nat)
+    (h : wfL args = true) :
+    passesAfter true old c ops pos args = ((encL old pos args).length, some (encL old pos args)) ∧
+    passesAfter true old c ops pos args = passesAfter true old (Cache.init N) [] pos args ∧
+    (args.any needsClear = true →
+      (sizeStatement (cacheAfter true c ops) args).2.data = lensL args ∧
+      (sizeStatement (cacheAfter true c ops) args).2.data = (sizeStatement (Cache.init N) args).2.data) := by
+  have key : ∀ c' : Cache, passesAfter true old c' [] pos args = ((encL old pos args).length, some (encL old pos args)) := by
+    intro c'
+    simp only [passesAfter, cacheAfter, List.foldl_nil, sizeStatementAt_true]
+    exact passes_spec old c' args pos h
+  have h1 : passesAfter true old c ops pos args = passesAfter true old (cacheAfter true c ops) [] pos args := by
+    simp [passesAfter, cacheAfter]
+  refine ⟨by rw [h1, key], by rw [h1, key, key], fun hc => ?_⟩
+  have hd : ∀ c' : Cache, (sizeStatement c' args).2.data = lensL args := by
+    intro c'
+    rw [sizeStatement_spec old c' args pos h, pushAll_data]
+    simp [startCache, hc, Cache.clear]
+  exact ⟨hd _, by rw [hd, hd]⟩
+
+/-- the same at record level: after any history of logged and dropped statements the record is written without a
+    fault, has the reserved length and is read back as the documented values (`C04_framing` on the cache the history
+    left) -/
+theorem C04_framing_after_drops (old : Mem) (f : Frame) (c : Cache) (ops : List StmtOp) (args : List Arg) (pos : Nat)
+    (dyn : Bool) (hdr lvl rest : Bytes) (h : wfL args = true) (hh : hdr.length = f.header)
+    (hl : lvl.length = if dyn then f.lvlBytes else 0) :
+    ∃ record, writeRecord old (cacheAfter true c ops) pos hdr args lvl = some record ∧
+      record.length = reserved f (cacheAfter true c ops) args dyn ∧
+      reserved f (cacheAfter true c ops) args dyn = reserved f c args dyn ∧
+      readRecord f (shapesOf args) pos dyn (record ++ rest) = some (hdr, viewL args, lvl, rest) := by
+  obtain ⟨record, h1, h2, h3⟩ := C04_framing old f (cacheAfter true c ops) args pos dyn hdr lvl rest h hh hl
+  refine ⟨record, h1, h2, ?_, h3⟩
+  unfold reserved
+  rw [sizeStatement_spec old _ args pos h, sizeStatement_spec old c args pos h]
+
+/-- **the position of the `clear()` matters** (why the obligation pins it): were the cache cleared *after* the encode
+    pass instead (`clearAtStart = false`) — indistinguishable as long as every statement is encoded — one dropped
+    statement would leave its lengths behind and the next statement would be encoded with them: here a direct-format
+    text of 5 bytes after a dropped one of 1 byte is written as 4 + 1 bytes although 4 + 5 were reserved; with the
+    `clear()` at the start the same history is harmless. -/
+theorem C04_clear_position_matters :
+    passesAfter false (fun _ => 0) (Cache.init 12) [.dropped [.direct [97]]] 0 [.direct [100, 100, 100, 100, 100]] =
+      (9, some [1, 0, 0, 0, 100]) ∧
+    passesAfter false (fun _ => 0) (Cache.init 12) [.logged [.direct [97]]] 0 [.direct [100, 100, 100, 100, 100]] =
+      (9, some [5, 0, 0, 0, 100, 100, 100, 100, 100]) ∧
+    passesAfter true (fun _ => 0) (Cache.init 12) [.dropped [.direct [97]]] 0 [.direct [100, 100, 100, 100, 100]] =
+      (9, some [5, 0, 0, 0, 100, 100, 100, 100, 100]) := by decide
+
 /-- **sanitiser.** The sink text is the message with exactly the bytes failing the printable predicate replaced by
     `\xHH` (backslash, `x`, two upper-case hex digits of the byte), every other byte kept, order kept; … -/
 theorem C04_sanitize_spec (p : Printable) (s : Bytes) :
@@ -226,5 +283,14 @@ example : decodeL (shapesOf sampleArgs) 3 (encL (fun _ => 170) 3 sampleArgs ++ [
 example : (encL (fun _ => 170) 3 sampleArgs).length = 94 := by decide
 example : sanitize { lo := 32, hi := 126, extra := [10] } [97, 9, 200, 10] = [97, 92, 120, 48, 57, 92, 120, 67, 56, 10] := by
   decide
+
+/-- `C04_drop_leaves_nothing` on a real history: two dropped statements (C strings of other lengths, a
+    `forward_list`) and a logged one, then `sampleArgs` — the cache holds exactly `sampleArgs`' seven lengths -/
+example : (sizeStatement (cacheAfter true { data := [9, 9, 9], cap := 12 }
+      [.dropped [.cstr (some [97, 97, 97, 97, 97]), .cstr (some [98])],
+       .logged [.str [1, 2, 3], .prim .arith [1]],
+       .dropped [.seq kiFwd .cstr [.cstr (some [65, 66]), .cstr none]]]) sampleArgs).2.data = [3, 4, 3, 2, 1, 2, 1] ∧
+    (cacheAfter true { data := [9, 9, 9], cap := 12 }
+      [.dropped [.cstr (some [97, 97, 97, 97, 97]), .cstr (some [98])]]).data = [6, 2] := by decide
 
 end Codec
